@@ -251,7 +251,7 @@ func rulesC03(c *Ctx) {
 					n++
 					g := f.Graph()
 					guards := g.GuardsAt(g.VertexOf(call))
-					reqParam := f.Root().Param("req")
+					reqParam := f.Root().ParamOfNamed(pJ, "Request")
 					hasCall := hasAtom(guards, func(a Atom) bool {
 						ce, ok := a.E.(*ast.CallExpr)
 						if !ok || !a.Val || !f.IsCallTo(ce, isCall) {
